@@ -223,7 +223,7 @@ func chanAlphabet(in input) []chanKey {
 	return keys
 }
 
-func coqChan(k chanKey) string { return vh.App("ChanKey", vh.HexS(k.ID), vh.Z(k.Ty)) }
+func coqChan(k chanKey) string { return vh.App("ChanKey", hexS(k.ID), vh.Z(k.Ty)) }
 
 // ---- run ----------------------------------------------------------------------------
 
@@ -256,6 +256,7 @@ func run(in input) vh.Result {
 	var steps []string
 	var obs []stepObs
 	ncmds := 0
+	prevState := "[] [] []"
 	for _, op := range in.Ops {
 		if len(op.B) == 0 {
 			continue
@@ -273,7 +274,7 @@ func run(in input) vh.Result {
 		metas := make([]string, len(keys))
 		for i, k := range keys {
 			if id, ok := w.activeIdx(k); ok {
-				act[i] = vh.Pair(coqChan(k), vh.Some(vh.HexS(id)))
+				act[i] = vh.Pair(coqChan(k), vh.Some(hexS(id)))
 				so.Active = append(so.Active, k.ID+"->"+id)
 			} else {
 				act[i] = vh.Pair(coqChan(k), vh.None())
@@ -293,8 +294,15 @@ func run(in input) vh.Result {
 			coqRes = vh.App("BResults", vh.NList(res.Results))
 		}
 		classify(op.B, res, flags)
-		steps = append(steps, vh.Pair(vh.ListOf(op.B, func(c cmdJ) string { return c.coq() }),
-			vh.App("Obs", coqRes, vh.ListOf(tasks, coqTask), vh.List(act), vh.List(metas))))
+		state := vh.ListOf(tasks, coqTask) + " " + vh.List(act) + " " + vh.List(metas)
+		var coqObs string
+		if state == prevState {
+			coqObs = vh.App("Same", coqRes)
+		} else {
+			coqObs = vh.App("Full", vh.App("Obs", coqRes, state))
+		}
+		prevState = state
+		steps = append(steps, vh.Pair(vh.ListOf(op.B, func(c cmdJ) string { return c.coq() }), coqObs))
 		obs = append(obs, so)
 	}
 	var fl []string
